@@ -758,6 +758,13 @@ def oracle_c16(run, ops, impl):
                     must_go = {c for c in cs if c == c.lower()}
                     if (after & must_go) or not (before - set(cs) <= after <= before):
                         out.append(V("C16:accepted-remove-left-a-named-contract-listed", {"line": i + 1, "op": op, "before": sorted(before), "after": sorted(after)}))
+            if res == "ok" and a[1] == "changeRoot":
+                # handing over the root role removes nobody from the list: a contract stays listed until a root removes it
+                if sorted(new["contracts"]) != sorted(st["contracts"]):
+                    out.append(V("C16:changeRoot-changed-the-contract-list", {"line": i + 1, "op": op, "before": sorted(st["contracts"]),
+                                                                             "after": sorted(new["contracts"])}))
+                if new["root"].lower() != a[3].lower():
+                    out.append(V("C16:changeRoot-installed-another-root", {"line": i + 1, "op": op, "root_after": new["root"]}))
             if res != "ok" and is_root and a[1] == "changeRoot" and a[3] in valid:
                 out.append(V("C16:changeRoot-refused-for-root", {"line": i + 1, "op": op, "root": st["root"], "result": res}))
         st = new
@@ -1075,7 +1082,7 @@ MSGTREE_RULE = ("each case is one block of DeliverTx calls on the real app (full
 PROPS["C02"] = {
     "modules": ["NibiruProofs.C02"],
     "runs": [{"model": "msgtree", "n_quick": 120, "n_thorough": 1500, "nontrivial": r"eth"},
-             {"model": "evmtx", "n_quick": 200, "n_thorough": 3000, "nontrivial": r"^ok A="}],
+             {"model": "evmtx", "n_quick": 200, "n_thorough": 3000, "nontrivial": r"^ok A=", "cmp_tokens": 4}],
     "oracle": oracle_c02,
     "cross_oracle": cross_oracle_evmtx("C02"),
     "rule": MSGTREE_RULE + "; non-trivial = the tx contains a MsgEthereumTx somewhere | evmtx: what the EVM admission pipeline does for "
@@ -1165,6 +1172,11 @@ def oracle_c07(run, ops, impl):
                     out.append(V("C07:sequence-not-advanced-by-one-per-message", {"line": i + 1, "account": k, "before": st["acct"].get(k, (0, 0))[0], "after": v[0],
                                                                                      "messages": cnt.get(k, 0), "result": res}))
             if res == "ok":
+                # a contract creation that did not fail put its code at the address derived from the signer and the tx nonce
+                for d in plist(sec(ob.split(), "D") or "-"):
+                    who, ex, failed = d.split(":")
+                    if ex == "0" and failed == "0":
+                        out.append(V("C07:contract-not-at-the-address-derived-from-signer-and-nonce", {"line": i + 1, "creation": who, "op": op[:300]}))
                 for m in ms:
                     key = (m["sender"], m["nonce"])
                     if key in executed:
@@ -1281,7 +1293,7 @@ EVMTX_RULE = ("each case is one block on a real NibiruApp driven through BeginBl
 PROPS["C07"] = {
     "modules": ["NibiruProofs.C07"],
     "cross_oracle": cross_oracle_evmtx("C07"),
-    "runs": [{"model": "evmtx", "n_quick": 250, "n_thorough": 4000, "nontrivial": r"^ok A="}],
+    "runs": [{"model": "evmtx", "n_quick": 250, "n_thorough": 4000, "nontrivial": r"^ok A=", "cmp_tokens": 4}],
     "oracle": oracle_c07,
     "rule": EVMTX_RULE,
     "assumptions": ["signature recovery (secp256k1/keccak, London signer) is a parameter: a message carries whether its signature recovers "
@@ -1291,7 +1303,7 @@ PROPS["C07"] = {
 PROPS["C05"] = {
     "modules": ["NibiruProofs.C05"],
     "cross_oracle": cross_oracle_evmtx("C05"),
-    "runs": [{"model": "evmtx", "n_quick": 250, "n_thorough": 4000, "nontrivial": r"^ok A="},
+    "runs": [{"model": "evmtx", "n_quick": 250, "n_thorough": 4000, "nontrivial": r"^ok A=", "cmp_tokens": 4},
              {"model": "sdb", "n_quick": 300, "n_thorough": 4000, "nontrivial": r"^P:ACC="},
              {"model": "evmsupply", "n_quick": 120, "n_thorough": 1500, "no_model": True, "per_line": True, "nontrivial": r"^ok "}],
     "oracle": oracle_c05,
